@@ -74,6 +74,52 @@ Lemma ParseGoVersion_pinned : gen_body_ParseGoVersion =
    "return result, nil"].
 Proof. reflexivity. Qed.
 
+(* ---------------------------------------------------------------- what the loader keeps from one rule to the next *)
+(* loadRule: the filterInfo of a rule is a NEW table (the only composite literal of that type), filled by newFilter from the rule's own
+   Where expression whenever the rule has one -- no other condition --, and handed by value to the pattern loaders, which hand it
+   to checkBoundVars (pinned above); loadRuleGroup runs loadRule on every rule in order and stops at the first error.  This is
+   [info_fresh] of Validate.v for the state-free loader [no_state]. *)
+Lemma loadRule_pinned : gen_body_loadRule =
+  ["proto := goRule{ line: rule.Line, group: l.group, suggestion: rule.SuggestTemplate, msg: rule.ReportTemplate, location: rule.LocationVar, }";
+   "if rule.DoFuncName != """" { doFn := l.state.env.GetFunc(l.file.PkgPath, rule.DoFuncName) if doFn == nil { return l.errorf(rule.Line, nil, ""can't find a compiled version of %s"", rule.DoFuncName) } proto.do = doFn }";
+   "info := filterInfo{ Vars: make(map[string]struct{}), group: group, }";
+   "if rule.WhereExpr.IsValid() { filter, err := l.newFilter(rule.WhereExpr, &info) if err != nil { return err } proto.filter = filter }";
+   "if err := l.checkTemplateVars(group, rule); err != nil { return err }";
+   "for _, pat := range rule.SyntaxPatterns { if err := l.loadSyntaxRule(group, proto, info, rule, pat.Value, pat.Line); err != nil { return err } }";
+   "for _, pat := range rule.CommentPatterns { if err := l.loadCommentRule(proto, info, rule, pat.Value, pat.Line); err != nil { return err } }";
+   "return nil"].
+Proof. reflexivity. Qed.
+
+Lemma loadRuleGroup_rules_pinned : gen_loadRuleGroup_rules =
+  ["for i := range group.Rules { rule := &group.Rules[i] if err := l.loadRule(group, rule); err != nil { return err } }"].
+Proof. reflexivity. Qed.
+
+Lemma filterInfo_pinned :
+  gen_filterInfo_fields = ["Vars map[string]struct{}"; "group *ir.RuleGroup"] /\
+  gen_filterInfo_literals = ["loadRule: filterInfo{ Vars: make(map[string]struct{}), group: group, }"].
+Proof. split; reflexivity. Qed.
+
+(* the state of the loader: its fields, and every assignment a method of the loader makes to something rooted at the loader.  None is
+   made by loadRule or below it (newFilter, the pattern loaders, the checks): nothing a rule computes is kept for the next one.  The
+   writes of loadRuleGroup are the GoRuleGroup of the group and its registration. *)
+Lemma irLoader_fields_pinned : gen_irLoader_fields =
+  ["state *engineState"; "ctx *LoadContext"; "itab *typematch.ImportsTab"; "pkg *types.Package"; "file *ir.File"; "gogrepFset *token.FileSet";
+   "filename string"; "res *goRuleSet"; "importer *goImporter"; "group *GoRuleGroup"; "prefix string"; "importedPkg string";
+   "imported []*goRuleSet"].
+Proof. reflexivity. Qed.
+
+Definition write_by (fn : string) (w : string) : bool := String.prefix (fn ++ ": ") w.
+
+Lemma irLoader_writes_outside_rules :
+  forallb (fun w => write_by "LoadFile" w || write_by "loadBundle" w || write_by "compileFilterFuncs" w || write_by "loadRuleGroup" w) gen_irLoader_writes = true.
+Proof. vm_compute. reflexivity. Qed.
+
+Lemma irLoader_group_writes : filter (write_by "loadRuleGroup") gen_irLoader_writes =
+  ["loadRuleGroup: l.group = &GoRuleGroup{ Line: group.Line, Filename: l.filename, Name: group.Name, DocSummary: group.DocSummary, DocBefore: group.DocBefore, DocAfter: group.DocAfter, DocNote: group.DocNote, DocTags: group.DocTags, }";
+   "loadRuleGroup: l.group.Name = l.prefix + ""/"" + l.group.Name";
+   "loadRuleGroup: l.res.groups[l.group.Name] = l.group"].
+Proof. vm_compute. reflexivity. Qed.
+
 (* errors_located: apart from the two locating helpers themselves, the only places of the load path that build an error value
    without the rules-file location are wrappers around errors that carry it (parser / type checker / irconv / bundle file /
    custom declarations), and irconv re-raises only foreign panics *)
